@@ -809,6 +809,10 @@ func (m *MessageClientMessageData) CheckValid() error {
 func (m *MessageClientMessage) CheckValid() error {
 	if len(m.Data) == 0 {
 		return fmt.Errorf("message empty")
+	} else if !json.Valid(m.Data) {
+		// The decoder only skips over raw members, the data is sent to other
+		// sessions as it is.
+		return fmt.Errorf("message data is not valid JSON")
 	}
 	switch m.Recipient.Type {
 	case RecipientTypeRoom:
@@ -905,6 +909,10 @@ type AddSessionInternalClientMessage struct {
 }
 
 func (m *AddSessionInternalClientMessage) CheckValid() error {
+	if len(m.User) > 0 && !json.Valid(m.User) {
+		// The user data is sent to all sessions of the room as it is.
+		return fmt.Errorf("user is not valid JSON")
+	}
 	return m.CommonSessionInternalClientMessage.CheckValid()
 }
 
@@ -1240,6 +1248,10 @@ type TransientDataClientMessage struct {
 }
 
 func (m *TransientDataClientMessage) CheckValid() error {
+	if len(m.Value) > 0 && !json.Valid(m.Value) {
+		// The value is stored and sent to all sessions of the room as it is.
+		return fmt.Errorf("value is not valid JSON")
+	}
 	switch m.Type {
 	case "set":
 		if m.Key == "" {
